@@ -58,7 +58,8 @@ PROPERTY MonitorAgrees
 def mc_runs(tier):
     q = tier == "quick"
     return [
-        dict(module="Rar", tag="MC_Rar", cfg=RAR_CFG % (((5, 2, 2, 3, 9) if q else (7, 3, 3, 3, 12)) + ("period-1", "new", "own", "reset", 1, RAR_PROPS))),
+        dict(module="Rar", tag="MC_Rar", cfg=RAR_CFG % (((5, 2, 2, 3, 9) if q else (7, 3, 3, 3, 12)) + ("period-1", "new", "own", "reset", 1, RAR_PROPS)),
+             dead_ok=("Restart",)),          # a single training call: the Restart action is disabled by MaxCalls = 1
         # chained solve calls on the returned generator (Restart action)
         dict(module="Rar", tag="MC_Rar_restart", cfg=RAR_CFG % (((4, 2, 2, 3, 6) if q else (5, 2, 2, 3, 8)) + ("period-1", "new", "own", "reset", 2, RAR_PROPS))),
         dict(module="Rar", tag="MC_Rar_witness_stale_counter", cfg=RAR_CFG % (4, 2, 1, 3, 5, "period-1", "new", "own", "keep", 2, "PROPERTY StepsExactlyOnSchedule\n"),
@@ -141,15 +142,17 @@ def run(pid, tier, seed, assumptions, rule):
         states = trans = 0
         mc_info = []
         for m in mc_runs(tier):
-            r = core.run_tlc(m["module"], m["cfg"], sc, workers=m.get("workers", core.NCPU), tag=m["tag"], timeout=m.get("timeout", 1800))
+            r = core.run_tlc(m["module"], m["cfg"], sc, workers=m.get("workers", core.NCPU), tag=m["tag"], timeout=m.get("timeout", 1800),
+                             coverage=(m.get("expect", "pass") == "pass"))
             if m.get("expect", "pass") == "pass":
-                core.tlc_must_pass(r, m["tag"])
+                core.tlc_must_pass(r, m["tag"], dead_ok=m.get("dead_ok", ()))
                 states += r.distinct
                 trans += r.generated
             else:
                 core.tlc_must_fail(r, m["tag"], m["expect"][1])
             mc_info.append(dict(run=m["tag"], distinct=r.distinct, generated=r.generated, depth=r.depth,
-                                expect=m.get("expect", "pass"), errors=r.errors[:1], wall_s=round(r.wall, 1)))
+                                expect=m.get("expect", "pass"), errors=r.errors[:1], wall_s=round(r.wall, 1),
+                                actions_taken={a: v[1] for a, v in r.coverage.items() if a != "Init"}))
         from .. import repotrace
         fut = repotrace.start(tier, rar=True)
         cfgs = cases(tier, seed)
